@@ -11,12 +11,12 @@ EXTENDS Integers, Sequences, FiniteSets, TLC, Json, IOUtils, SequencesExt
 
 IntLeaf  == {"imm", "imm0", "pool", "neg", "negpool", "hex", "char", "val", "valbig", "valneg", "glob", "glob2", "local", "formal",
              "aconst", "avar", "acall", "aform", "call", "call2", "cnt", "rd", "prt", "cexpr", "cexprbig", "first", "str", "lval", "asub2", "asub3"}
-BoolLeaf == {"true", "false", "lt", "eqc", "gv", "nz", "cnt1"}
+BoolLeaf == {"true", "false", "lt", "eqc", "gv", "nz", "cnt1", "cntb", "cntf"}
 Arith    == {"+", "-"}
 Rel      == {"=", "~=", "<", "<=", ">", ">="}
 Logic    == {"and", "or"}
-IntCtx   == {"exit", "glob", "local", "elem", "putc", "arg1", "arg1n", "farg1n", "arg2", "arg3", "farg", "farg2", "binl", "binr", "binrr", "ret"}
-BoolCtx  == {"if", "while", "not", "val", "and", "or", "asg", "arg", "candt", "corf", "cplus", "cminus", "ceq"}
+IntCtx   == {"exit", "glob", "local", "elem", "putc", "arg1", "arg1n", "farg1n", "arg2", "arg3", "farg", "farg2", "binl", "binr", "binrr", "cntobs", "ret"}
+BoolCtx  == {"if", "while", "not", "val", "and", "or", "asg", "arg", "candt", "corf", "cplus", "cminus", "ceq", "cntobs", "cntobsif"}
 ConstLeaf == {"imm", "imm0", "pool", "neg", "negpool", "hex", "char", "cexpr", "cexprbig"}
 
 ArithPrograms == {[fam |-> "op", op |-> o, l |-> a, r |-> b, ctx |-> c] : o \in Arith, a \in IntLeaf, b \in IntLeaf, c \in IntCtx}
